@@ -218,6 +218,12 @@ def ws_handshake(r):
              b"Sec-WebSocket-Protocol: coap", b"Sec-WebSocket-Version: 13"]
     if r.random() < 0.5:
         lines.insert(2, b"User-Agent: vf")
+    if r.random() < 0.6:
+        # a header line close to what the library's line buffer (160 bytes) takes: 120..159
+        # bytes including CR LF are all legal and must be accepted however they are cut
+        n = r.choice([120, 140, 146, 147, 150, 155, 158, 159, r.randint(100, 159)])
+        name = r.choice([b"X-Forwarded-For: ", b"Origin: http://", b"Cookie: k="])
+        lines.insert(r.randint(1, len(lines)), name + b"p" * (n - 2 - len(name)))
     return b"\r\n".join(lines) + b"\r\n\r\n"
 
 
@@ -337,6 +343,15 @@ def work(job):
             want = expected_surface(msgs, "server")
             runner = lambda p: server_tcp_run(exe, stream, p, seed, proto="ws")
             plans = cut_plans(r, len(stream), tier, 0)
+            # one cut at every position of a long header line's tail (the part of the line that
+            # is in the buffer when the next read is due decides what a bounded read may take)
+            pos = 0
+            long_cuts = []
+            for ln in hs.split(b"\r\n"):
+                if len(ln) + 2 >= 100:
+                    long_cuts += [(pos + j,) for j in range(max(1, len(ln) - 30), len(ln) + 2)]
+                pos += len(ln) + 2
+            plans = long_cuts + plans
             # cuts inside every frame header, between CR and LF, at the end of the handshake
             fpos = len(hs)
             rest = frames
